@@ -183,12 +183,24 @@ class HistogramCollection(Container[Histogram1D], ObjectWithBinning):
             )
             for item in a_dict["histograms"]
         )
-        return HistogramCollection(*histograms)
+        histograms = tuple(histograms)
+        binning = None
+        if not histograms and "binning" in a_dict:
+            binning = BinningBase.from_dict(dict(a_dict["binning"]))
+        return HistogramCollection(
+            *histograms,
+            binning=binning,
+            title=a_dict.get("title"),
+            name=a_dict.get("name"),
+        )
 
     def to_dict(self) -> Dict[str, Any]:
         return {
             "histogram_type": "histogram_collection",
             "histograms": [h.to_dict() for h in self.histograms],
+            "binning": self.binning.to_dict(),
+            "name": self.name,
+            "title": self.title,
         }
 
     def to_json(self, path: Optional[str] = None, **kwargs) -> str:
